@@ -31,7 +31,7 @@ the failure needs (`reduce_targets`: greedy deletion of target statements keepin
 unrelated constructs of a large random program do not leak into the signature; the harness' shrinker then
 minimises the rest with the signature fixed.  Loop shape classes: generic (first of zero_trip, neg_lb, nondiv,
 step_gt_1, iter_args, nested, plain on the failing input) or pass specific -- range folding: iv_mul_nonpos, wraps,
-iv_mul_unknown, iv_mul_pos, iv_add (the chain of single uses of the induction variable, followed the way the
+iv_poison, iv_mul_unknown, iv_mul_pos, iv_add (the chain of single uses of the induction variable, followed the way the
 pass does); flatten: nest:ivs_used:{outer_nondiv,outer_zero_trip,outer_div}, nest:ivs_unused:{inner_neg_range,
 inner_nondiv,outer_step_gt_1,inner_zero_trip,plain}.
 
@@ -194,7 +194,7 @@ def _runtime_operands(module, name, vec):
         out.setdefault(op, vals)
     for env in envs:
         for v, x in env.items():
-            if isinstance(x, int):
+            if isinstance(x, int) or x is refsem.POISON:
                 out.setdefault(v, x)
     for f in module.walk():
         if f.name == "func.func" and f.properties["sym_name"].data == name and f.regions[0].first_block is not None:
@@ -250,6 +250,8 @@ def fold_shape(module, name, vec):
             if other is cur or loop.is_ancestor(other.owner):
                 break
             c = _value_of(other, rt)
+            if c is None and rt.get(other) is refsem.POISON:
+                kinds.append("iv_poison")       # the outside value is POISON on this input
             if user.name == "arith.addi":
                 kinds.append("iv_add")
                 if c is not None and None not in nums:
@@ -271,7 +273,7 @@ def fold_shape(module, name, vec):
                     kinds.append("wraps")
             cur = user.results[0]
         found.update(kinds)
-    for f in ("iv_mul_nonpos", "wraps", "iv_mul_unknown", "iv_mul_pos", "iv_add"):
+    for f in ("iv_mul_nonpos", "wraps", "iv_poison", "iv_mul_unknown", "iv_mul_pos", "iv_add"):
         if f in found:
             return f
     return None
@@ -1058,6 +1060,6 @@ def replay(h, recipe):
 
 def checks(h):
     _init()
-    unit = h.scale(12, 150)
+    unit = h.scale(12, 120)
     for salt, (cname, strat, weight) in enumerate(campaigns()):
         h.hyp(cname, strat, lambda r, cname=cname: run_case(h, r, cname), unit * weight, salt + 1)
